@@ -1623,7 +1623,9 @@ fn family_review(g: &mut G, rng: &mut Rng, thorough: bool) {
     // ---- C04 (seeded C04-5): EXT_FTI and FDT disagree on the transfer length.  The object is partitioned from the
     //      EXT_FTI (5 blocks), the FDT that arrives later announces less (or more); then packets for blocks
     //      that were not initialised yet, in and beyond either length
-    for (k, (l_fti, l_fdt)) in [(160usize, 40usize), (160, 33), (40, 160), (160, 0)].iter().enumerate() {
+    //      (cases 4, 5: the FDT carries NO FEC OTI at all, so the FDT-is-the-authority restart of 432b305 does not
+    //      apply and the in-band partition stays: the length mismatch branch of attach_fdt is reached)
+    for (k, (l_fti, l_fdt)) in [(160usize, 40usize), (160, 33), (40, 160), (160, 0), (160, 40), (40, 160)].iter().enumerate() {
         g.cfg2(&format!("fdt-fti-length-mismatch-{}", k), 2, false, true, 1 << 16, true, true, 0, false, 0);
         g.ctx.nontrivial(&format!("fdt-fti-length-mismatch {}", k));
         g.ctx.count("malformed:fdt-fti-length-mismatch");
@@ -1631,7 +1633,10 @@ fn family_review(g: &mut G, rng: &mut Rng, thorough: bool) {
         g.push(&p, T0);
         // Content-Length follows the FDT's Transfer-Length: when the EXT_FTI partition delivers another number of
         // bytes the object ends in error (e19fa2b), which the model has through `FileAbs.contentLength`
-        let f = fdt_xml(&far(8), &[("90".to_string(), *l_fdt)], 16, 2);
+        let mut f = fdt_xml(&far(8), &[("90".to_string(), *l_fdt)], 16, 2);
+        if k >= 4 {
+            f = String::from_utf8(f).unwrap().replace(" FEC-OTI-FEC-Encoding-ID=\"0\" FEC-OTI-Maximum-Source-Block-Length=\"2\" FEC-OTI-Encoding-Symbol-Length=\"16\"", "").into_bytes();
+        }
         for pk in fdt_pkts(&f, 1, 512, None) {
             g.push(&pk, T0 + 1);
         }
@@ -1754,6 +1759,56 @@ fn family_review(g: &mut G, rng: &mut Rng, thorough: bool) {
         }
         g.ctx.step(g.eng, &format!("recv iso {} {}", T0, ds.join(",")));
         g.ctx.end_case(g.eng);
+    }
+
+    // ---- C04: the scheme-specific part of an FEC OTI that arrives through the FDT XML (base64
+    //      FEC-OTI-Scheme-Specific-Info) is taken as is: RaptorQ symbol alignment Al = 0 / not dividing E, number of
+    //      sub-blocks N = 0, and the same for Raptor; then ALL source symbols of the (2-symbol) object without
+    //      EXT_FTI, so that the decoder is built and runs.  Child process.
+    {
+        fn b64(d: &[u8]) -> String {
+            const T: &[u8; 64] = b"ABCDEFGHIJKLMNOPQRSTUVWXYZabcdefghijklmnopqrstuvwxyz0123456789+/";
+            let mut o = String::new();
+            for c in d.chunks(3) {
+                let n = (c[0] as u32) << 16 | (*c.get(1).unwrap_or(&0) as u32) << 8 | *c.get(2).unwrap_or(&0) as u32;
+                o.push(T[(n >> 18) as usize & 63] as char);
+                o.push(T[(n >> 12) as usize & 63] as char);
+                o.push(if c.len() > 1 { T[(n >> 6) as usize & 63] as char } else { '=' });
+                o.push(if c.len() > 2 { T[n as usize & 63] as char } else { '=' });
+            }
+            o
+        }
+        for fec in [6u8, 1] {
+            for al in [0u8, 1, 3, 4, 8, 255] {
+                for e in [16u16, 1024, 1023] {
+                    for n in [0u16, 1, 2] {
+                        let ssi = if fec == 6 { b64(&[1, (n >> 8) as u8, n as u8, al]) } else { b64(&[0, 1, n as u8, al]) };
+                        g.cfg2(&format!("fdt-oti-ssi-fec{}-al{}-e{}-n{}", fec, al, e, n), 2, false, true, 1 << 16, true, true, 0, false, 0);
+                        g.ctx.nontrivial(&format!("fdt-oti-ssi {} {} {} {}", fec, al, e, n));
+                        g.ctx.count("malformed:fdt-oti-ssi");
+                        let k = if fec == 1 { 4u32 } else { 2 }; // Raptor needs K >= 4
+                        let tl = k as u64 * e as u64;
+                        let xml = format!(
+                            "<?xml version=\"1.0\" encoding=\"UTF-8\"?>\n<FDT-Instance xmlns=\"urn:IETF:metadata:2005:FLUTE:FDT\" Expires=\"{}\">\n  <File Content-Location=\"file:///a\" TOI=\"97\" Content-Length=\"{}\" Transfer-Length=\"{}\" FEC-OTI-FEC-Encoding-ID=\"{}\" FEC-OTI-Maximum-Source-Block-Length=\"{}\" FEC-OTI-Encoding-Symbol-Length=\"{}\" FEC-OTI-Scheme-Specific-Info=\"{}\"/>\n</FDT-Instance>\n",
+                            far(12), tl, tl, fec, k, e, ssi
+                        );
+                        let mut ds: Vec<String> = fdt_pkts(xml.as_bytes(), 1, 1024, None).iter().map(|d| hex(d)).collect();
+                        let ss = if fec == 6 { (1u8, 1u32, 1u32, 4u32) } else { (2, 1, 1, 4) };
+                        if let Some(oti) = hk::make_oti(fec, 0, k, e, 0, Some(ss), false) {
+                            for esi in 0..k {
+                                let p = hk::PktFields { payload: rng.bytes(e as usize), transfer_length: tl, esi, sbn: 0, toi: 97, fdt_id: None, cenc: Cenc::Null,
+                                                        inband_cenc: false, close_object: false, source_block_length: 0, sender_current_time: false };
+                                if let Ok(d) = guarded(|| hk::new_alc_pkt(&oti, &0u128, TSI, &p, false, st(T0))) {
+                                    ds.push(hex(&d));
+                                }
+                            }
+                        }
+                        g.ctx.step(g.eng, &format!("recv iso {} {}", T0, ds.join(",")));
+                        g.ctx.end_case(g.eng);
+                    }
+                }
+            }
+        }
     }
 
     // ---- C04 (seeded C04-7): the codepoint of a packet and the OTI of its object disagree.  The object is
